@@ -304,3 +304,36 @@ func VerifMaybeCommitIndex(matches []uint64) uint64 {
 	sort.Sort(&buf)
 	return buf[len(buf)-r.quorum()]
 }
+
+// VerifMaybeCommit runs the real raft.maybeCommit of a leader whose voters have the given Match
+// indexes and whose learners have the given Match indexes, over a log of max(all)+1 entries of
+// term 1 (current term 1), and returns the resulting commit index.
+func VerifMaybeCommit(voters, learners []uint64) (committed uint64, perr string) {
+	defer func() {
+		if e := recover(); e != nil {
+			committed, perr = 0, fmt.Sprint(e)
+		}
+	}()
+	var max uint64
+	for _, m := range append(append([]uint64(nil), voters...), learners...) {
+		if m > max {
+			max = m
+		}
+	}
+	st := NewRealMemoryStorage()
+	ents := make([]pb.Entry, 0, max+1)
+	for i := uint64(1); i <= max+1; i++ {
+		ents = append(ents, pb.Entry{Index: i, Term: 1})
+	}
+	st.Append(ents)
+	r := &raft{prs: make(map[uint64]*Progress), learnerPrs: make(map[uint64]*Progress), Term: 1,
+		raftLog: newLogWithSize(st, &verifPanicLogger{}, noLimit), logger: &verifPanicLogger{}}
+	for i, m := range voters {
+		r.prs[uint64(i+1)] = &Progress{Match: m}
+	}
+	for i, m := range learners {
+		r.learnerPrs[uint64(100+i)] = &Progress{Match: m, IsLearner: true}
+	}
+	r.maybeCommit()
+	return r.raftLog.committed, ""
+}
